@@ -1,14 +1,15 @@
 import SigpyVerif.Model.Py
 import SigpyVerif.Model.C11Base
 import SigpyVerif.Gen.Prox
+import SigpyVerif.Gen.ProxBody
 /-
   C11 — executable model of sigpy/prox.py + sigpy/thresh.py over exact Gaussian rationals (core Lean only).
 
   A `Prox` object is a `PExpr`; `call e α x` is `Prox.__call__` (input shape check, `_prox`, output shape check).
   Every scalar formula is the *generated* definition `Gen.Prox.*` (regenerated from the Python source on every
   run) instantiated at `Rat`; what is hand-written here is the plumbing (elementwise maps, `util.split`/`vec`,
-  per-slice norms of `l2_proj`, the descending sort / cumsum / index search of `l1_proj`, matrix application for
-  `UnitaryTransform`) — tied to the real classes by the correspondence check.
+  per-slice norms of `l2_proj`, matrix application for `UnitaryTransform`; the body of `l1_proj`, `Stack._prox` with
+  `util.split` / `util.vec` and the `Prox.__call__` guard are the generated `Gen.ProxBody.*`) — tied to the real classes by the correspondence check.
   Moduli and norms must be rational (the harness generates such inputs); otherwise the reply is `irrational`.
   Modelled behaviour of `l1_proj` on an already feasible input: the input *in its own shape* (the property).
 -/
@@ -133,18 +134,16 @@ def kktOk (eps θ : Rat) (mods : List Rat) : Bool :=
 def moduli (a : Array CQ) : Except String (List Rat) :=
   a.toList.mapM fun z => match cabs? z with | some m => .ok m | none => .error "irrational"
 
-/-- data of `thresh.l1_proj(eps, x)` -/
-def l1projData (eps : Rat) (x : Array CQ) : Except String (Array CQ) := do
-  let mods ← moduli x
-  let norm1 := mods.foldl (· + ·) 0
-  if l1projFeasible norm1 eps then return x
-  match duchiTheta eps mods with
+/-- `thresh.l1_proj(eps, x)` = the GENERATED body `Gen.ProxBody.l1projWith` (statement by statement from the source:
+    ravel, feasibility test, sort, cumsum, candidates, `flatnonzero(..).max()`, `soft_thresh(st[idx], input.reshape(shape))`),
+    run on the entries paired with their (rational) moduli, with the model's own merge sort for `xp.sort`.  The
+    result's shape is whatever the generated body returns (`l1proj_shape`: the input's shape on both paths). -/
+def l1projQ (eps : Rat) (x : Tens) : Except String Tens := do
+  let mods ← moduli x.data
+  match Gen.ProxBody.l1projWith (fun p : CQ × Rat => p.2)
+      (fun θ p => ((softThresh θ p.1.1 p.2, softThresh θ p.1.2 p.2), p.2)) msort eps ⟨x.shape, x.data.toList.zip mods⟩ with
   | none => throw "empty-max"
-  | some θ => mapE (csoftQ θ) x
-
-/-- `thresh.l1_proj(eps, x)`: `input.reshape(shape)` in the early-return branch and
-    `soft_thresh(st[idx], input.reshape(shape))` otherwise — the input's shape in both branches (the property) -/
-def l1projQ (eps : Rat) (x : Tens) : Except String Tens := withShape x.shape (l1projData eps x.data)
+  | some out => return ⟨out.shape, (out.data.map (·.1)).toArray⟩
 
 /-- complex matrix–vector product and conjugate transpose -/
 def cmul (a b : CQ) : CQ := (a.1 * b.1 - a.2 * b.2, a.1 * b.2 + a.2 * b.1)
